@@ -22,6 +22,14 @@ class SimDeadlock(InvalidSpec):
     pass
 
 
+class InjectedInterrupt(KeyboardInterrupt):
+    """The simulator's stand-in for a signal (Ctrl-C) delivered to the caller's thread while biotite code runs: at
+    a launch, or inside a blocking wait. A subclass of KeyboardInterrupt so that the code under test treats it as one;
+    core.call() tells it apart from a real Ctrl-C on the harness by the `injected` flag."""
+
+    injected = True
+
+
 class World:
     def __init__(self, root, stats):
         self.root = root
@@ -37,6 +45,7 @@ class World:
         self.sleeps = 0
         self.version_script = None
         self.events_fired = 0
+        self.interrupt_at = None  # simulated instant at which the next blocking wait is interrupted
 
     # ---- discrete-event time ---------------------------------------------------------------
     def after(self, at, fn):
@@ -64,6 +73,17 @@ class World:
             raise ValueError("sleep length must be non-negative")
         self.advance_to(self.now + dt)
 
+    def block_until(self, t):
+        """A blocking wait of the code under test (sleep, communicate) up to instant t; an armed interrupt that falls
+        into the wait ends it there."""
+        ia = self.interrupt_at
+        if ia is not None and ia <= t:
+            self.advance_to(max(ia, self.now))
+            self.interrupt_at = None
+            self.stats["fault:interrupt-in-wait"] += 1
+            raise InjectedInterrupt()
+        self.advance_to(t)
+
 
 class VClock:
     """Stands in for the `time` module inside biotite.application.application."""
@@ -82,7 +102,9 @@ class VClock:
         if self.w.sleeps > 400000:
             raise SimDeadlock("more than 400000 sleeps in one run")
         self.w.stats["sim:sleeps"] += 1
-        self.w.advance(d)
+        if d < 0:
+            raise ValueError("sleep length must be non-negative")
+        self.w.block_until(self.w.now + d)
 
 
 class DetNames:
@@ -131,6 +153,8 @@ class SimPopen:
                 raise PermissionError(errno.EACCES, "Permission denied", self.args[0])
             if launch == "eagain":
                 raise BlockingIOError(errno.EAGAIN, "Resource temporarily unavailable")
+            if launch == "interrupt":
+                raise InjectedInterrupt()
             raise OSError(errno.EIO, launch)
         self.pid = w.next_pid
         w.next_pid += 1
@@ -184,11 +208,13 @@ class SimPopen:
         w.fire_due()
         if self.state == "running":
             if self.exit_at != INF and (timeout is None or self.exit_at - w.now <= timeout):
-                w.advance_to(self.exit_at)
+                w.block_until(self.exit_at)
             elif timeout is None:
-                raise SimDeadlock("blocking wait on a child that never exits")
+                if w.interrupt_at is None:
+                    raise SimDeadlock("blocking wait on a child that never exits")
+                w.block_until(INF)
             else:
-                w.advance(timeout)
+                w.block_until(w.now + max(timeout, 0))
                 if self.state == "running":
                     raise _real_subprocess.TimeoutExpired(self.args, timeout)
 
